@@ -6,13 +6,16 @@
    top two (function) literals, and keeps executing the second as long as the (integer) literal left
    on the stack by executing the first is greater than 0"; "call.type$ executes the function whose
    name is the entry type of an entry", default.type for an unknown type).
-   The built-ins that do not run code (arithmetic, strings, stack, output ...) enter through one rule
-   that refers to their one-step function, whose stack laws are stated separately (Props/C03.v). *)
+   The built-ins that do not run code (arithmetic, strings, stack, output ...) enter through one rule,
+   parametrised by the relation [simple] that says what such a built-in does: instantiated with the
+   documented behaviour ([builtin_doc] of Spec/BstDoc.v, one rule per built-in written from the BibTeX
+   documentation) and with the model's one-step function ([model_simple]). *)
 From Pybtex Require Import Base.Prelude Base.PyChar Base.PyStr Model.BibtexStr Model.Wrap Model.Bst.
 
 Section Sem.
   Variable fmt_name : str -> str -> res str.
   Variable cw : char -> Z.
+  Variable simple : builtin -> state -> state -> Prop.
 
   (* built-ins that run code popped from the stack or named by the entry type *)
   Definition control (b : builtin) : bool :=
@@ -41,7 +44,7 @@ Section Sem.
       exec_obj fmt_name cw no_rec no_wh o st = Ok st' -> bigstep st (IId name) st'
   (* a built-in that runs no code *)
   | BS_builtin st name b st' : vlookup name (st_vars st) = Some (OBuiltin b) -> control b = false ->
-      builtin_step fmt_name cw no_rec no_wh b st = Ok st' -> bigstep st (IId name) st'
+      simple b st st' -> bigstep st (IId name) st'
   | BS_if_true st name f1 f2 z r st' : vlookup name (st_vars st) = Some (OBuiltin B_if) ->
       st_stack st = f1 :: f2 :: VInt z :: r -> (0 < z)%Z ->
       callv (set_stack st r) f2 st' -> bigstep st (IId name) st'
@@ -78,3 +81,7 @@ Section Sem.
     with whilerel_ind' := Minimality for whilerel Sort Prop.
   Combined Scheme bigstep_mutind from bigsteps_ind', bigstep_ind', callv_ind', whilerel_ind'.
 End Sem.
+
+(* what the model's one-step function says a code-free built-in does *)
+Definition model_simple (fmt_name : str -> str -> res str) (cw : char -> Z) : builtin -> state -> state -> Prop :=
+  fun b st st' => builtin_step fmt_name cw no_rec no_wh b st = Ok st'.
